@@ -24,8 +24,10 @@ const SITES: [(FaultSite, &str); 4] = [
 /// (UnexpectedEof is used at every site but `read`: from a block read it IS the end-of-file
 /// signal of `read_exact`, not a failure; from a listing, an open or a seek it is a failure like
 /// any other)
-const KINDS: [(std::io::ErrorKind, &str); 5] = [
+const KINDS: [(std::io::ErrorKind, &str); 7] = [
     (std::io::ErrorKind::UnexpectedEof, "UnexpectedEof"),
+    (std::io::ErrorKind::AlreadyExists, "AlreadyExists"),
+    (std::io::ErrorKind::NotFound, "NotFound"),
     (std::io::ErrorKind::PermissionDenied, "PermissionDenied"),
     (std::io::ErrorKind::Other, "Other"),
     (std::io::ErrorKind::Interrupted, "Interrupted"),
@@ -121,6 +123,10 @@ pub fn cmd(args: &Args) {
         // pass of its own (position entries, possibly a
         // roll-over into a file it has to create or open, unlinks)
         let mut images: Vec<(String, BTreeMap<u64, FileImg>)> = vec![("closed".to_string(), image.files.clone())];
+        if job % 8 == 0 {
+            // a directory without any WAL file: open lists it, creates and sizes the first file
+            images.push(("empty".to_string(), BTreeMap::new()));
+        }
         if gc_images {
             let effects = os_effects(&record, false);
             let mut partial = Image::default();
@@ -153,7 +159,7 @@ pub fn cmd(args: &Args) {
         for (site_idx, (site, site_name)) in SITES.iter().enumerate() {
             // crash images: the write-side sites only matter once (list / read faults are the
             // closed image's business), but open-or-create calls are enumerated in full
-            if image_name != "closed" && *site_name != "open" {
+            if image_name.starts_with("pre-unlink") && *site_name != "open" {
                 continue;
             }
             for k in 0..baseline.counts[site_idx] {
@@ -162,7 +168,7 @@ pub fn cmd(args: &Args) {
                         .iter()
                         .filter(|(kind, _)| *site_name != "read" || *kind != std::io::ErrorKind::UnexpectedEof)
                         .collect();
-                    let kinds: Vec<&(std::io::ErrorKind, &str)> = if all_kinds {
+                    let kinds: Vec<&(std::io::ErrorKind, &str)> = if all_kinds || image_name == "empty" {
                         usable
                     } else {
                         // two kinds per call in the quick tier, rotating
